@@ -106,8 +106,34 @@ class Producers:
         # (a function that never returns normally consumes nothing)
         ok = g.exit.id in g.reachable and not any(
             lk["site_line"] == 0 and lk["exit"] == "normal" for lk in leaks)
+        if ok and any(lk["site_line"] == 0 and lk["exit"] != "normal"
+                      for lk in leaks) and self._closes_directly(fn, pname):
+            # a callee that closes the resource itself (close() / with) is
+            # the resource's last owner: it must do so however it ends.  One
+            # that closes on its normal path only leaves the resource open
+            # when it raises -- it does not take ownership, the caller stays
+            # responsible (and is reported if it has no with / finally)
+            ok = False
         memo[key] = ok
         return ok
+
+    @staticmethod
+    def _closes_directly(fn, pname):
+        for n in ast.walk(fn.node):
+            if isinstance(n, ast.Call) and isinstance(n.func, ast.Attribute) \
+                    and n.func.attr == "close" and isinstance(
+                        n.func.value, ast.Name) and n.func.value.id == pname:
+                return True
+            if isinstance(n, ast.With):
+                for it in n.items:
+                    ce = it.context_expr
+                    if isinstance(ce, ast.Name) and ce.id == pname:
+                        return True
+                    if isinstance(ce, ast.Call) and len(ce.args) == 1 \
+                            and isinstance(ce.args[0], ast.Name) \
+                            and ce.args[0].id == pname:
+                        return True
+        return False
 
     def consumed_args(self, fi, call):
         """Indices of the positional arguments of `call` whose ownership the
